@@ -504,12 +504,14 @@ class Folder:
             if self._depth > 4:
                 raise Unfoldable("depth")
             a = fn.node.args
-            if a.vararg or a.posonlyargs:
+            if a.posonlyargs:
                 raise Unfoldable("signature")
             names = [x.arg for x in a.args]
-            if len(args) > len(names):
+            if len(args) > len(names) and not a.vararg:
                 raise Unfoldable("arity")
             env: Dict[str, Any] = dict(zip(names, args))
+            if a.vararg:
+                env[a.vararg.arg] = tuple(args[len(names):])  # `*extra` receives the surplus positional arguments
             kwnames = names + [x.arg for x in a.kwonlyargs]
             extra: Dict[str, Any] = {}
             for k, v in kwargs.items():
